@@ -337,7 +337,7 @@ CORPUS = [
     # (famA, famB, flags, ops) - fixed histories run first (past findings and corner cases)
     ("flat3", "flat3", "1w", ["av,0,0,%s" % hx("5")]),                               # F1: non-dictionary accepted as a page
     ("flat3", "flat3", "1w", ["ap,0,0,2,0"]),                                        # F1: the /Pages node itself
-    ("flat3", "flat3", "1w", ["rm,0,1,@l1"]),                                        # F2: foreign handle identifies a local page by number
+    ("flat3", "flat3", "1w", ["rm,0,1,@l1"]),                                        # F2 (fixed by 87382fd8): a foreign handle must not identify a local page by number
     ("flat3", "flat3", "1w", ["aa,0,0,@l0,1,1,@l2"]),                                # F2
     ("flat3", "nested0", "2w", ["ap,0,1,@l4,0", "ap,0,1,@l4,1", "cf,0,1,@l0", "ap,0,1,@l0,0", "rm,0,0,@l0", "ap,0,0,@n0,1"]),
     ("nested1", "flat3", "0w", ["rm,0,0,@l3", "uc,0", "ap,0,0,@l0,1", "sc,0,@l2", "aa,0,0,@n0,0,0,@l1"]),
